@@ -456,6 +456,9 @@ class TCPTransport(Transport):
             conn.send(conn.recvRandKey)
         else:
             self._sendSelfAddress(conn)
+            if conn.state == CONNECTION_STATE.DISCONNECTED:
+                # the very first write failed: the connection is gone again, nothing to announce
+                return
             # The onMessageReceived callback is configured in addNode already.
             self._onNodeConnected(self._connToNode(conn))
 
@@ -473,6 +476,8 @@ class TCPTransport(Transport):
         if not conn.sendRandKey:
             conn.sendRandKey = message
             self._sendSelfAddress(conn)
+            if conn.state == CONNECTION_STATE.DISCONNECTED:
+                return
 
         node = self._connToNode(conn)
         conn.setOnMessageReceivedCallback(functools.partial(self._onMessageReceived, node))
